@@ -167,8 +167,8 @@ class Plugin:
     HEADER = H.Tokens.HEADER
     RUN_MODULE = "C02.Run"
     GEN = ["Ssdp", "SsdpRecv", "Types", "DateMatchers"]
-    DEPENDS = ["C16", "C03", "C01", "C08"]
-    CLAUSES = {1: "never_raises", 2: "dropped_silent"}
+    DEPENDS = ["C16", "C03", "C01", "C08", "C04"]
+    CLAUSES = {1: "never_raises", 2: "dropped_silent", 3: "listener_inert"}
     SHARD = 40
     SEARCH_CASES = 300
     RULE = ("sequences of datagrams (byte-, token- and header-level mutations of valid NOTIFY / M-SEARCH / 200-OK messages: "
